@@ -12,8 +12,8 @@ pub mod refcodec;
 pub mod rng;
 pub mod runner;
 pub mod smast;
-pub mod spair;
 pub mod sout;
+pub mod spair;
 pub mod trace_sub;
 
 use runner::{Codec, Property, Tier};
